@@ -35,7 +35,8 @@ META = {
 }
 
 MUTATIONS = ["shift1", "minus_chunk", "past_size", "wrong_max", "swap_minmax",
-             "empty", "max_plus1", "other_scale", "neg1", "huge"]
+             "empty", "max_plus1", "other_scale", "neg1", "huge",
+             "mix_chunk_sizes"]
 
 
 def on_grid(cc, size, chunk):
@@ -83,10 +84,12 @@ class ChunkIO(RuleBasedStateMachine):
         bits=st.lists(st.integers(0, 3), min_size=3, max_size=3),
         shard_enc=st.sampled_from(["raw", "gzip"]),
         quality=st.integers(90, 100),
-        plane=st.sampled_from(["xy", "xz"]))
+        plane=st.sampled_from(["xy", "xz"]),
+        second=st.lists(st.sampled_from([0, 0, 1, 2, 3, 4, 5, 8, 16]),
+                        min_size=9, max_size=9))
     @logged
     def setup(self, dtype, channels, nscales, sizes, chunks, encs, blocks,
-              kind, bits, shard_enc, quality, plane):
+              kind, bits, shard_enc, quality, plane, second=None):
         sharded = kind.startswith("sharded")
         scales = []
         if self.LARGE:
@@ -112,6 +115,12 @@ class ChunkIO(RuleBasedStateMachine):
                 sharding=ds.sharding_dict(bits[0], bits[1], bits[2],
                                           shard_enc, shard_enc)
                 if sharded else None))
+            # a scale may list several chunk sizes (the format allows it and
+            # validate_chunk_coords accepts a position of any of the grids)
+            sec = (second or [0] * 9)[3 * i:3 * i + 3]
+            if not sharded and not self.LARGE and sec[0] and all(sec) and \
+                    list(sec) != list(chunk):
+                scales[-1]["chunk_sizes"].append(list(sec))
         self.info = ds.make_info(dtype, channels, scales)
         self.kind = kind
         self.sharded = sharded
@@ -149,8 +158,15 @@ class ChunkIO(RuleBasedStateMachine):
         return self.info["scales"][i % len(self.info["scales"])]
 
     def coords(self, sc, p):
-        grid = ds.chunk_coords_list(sc["size"], sc["chunk_sizes"][0])
-        return grid[p % len(grid)]
+        grids = [ds.chunk_coords_list(sc["size"], ch)
+                 for ch in sc["chunk_sizes"]]
+        grid = grids[p % len(grids)]
+        if len(grids) > 1 and p % len(grids):
+            self.flags.add("second_chunk_size")
+        return grid[(p // len(grids)) % len(grid)]
+
+    def valid_position(self, sc, cc):
+        return any(on_grid(cc, sc["size"], ch) for ch in sc["chunk_sizes"])
 
     def content(self, sc, cc, seed):
         C = self.info["num_channels"]
@@ -231,8 +247,8 @@ class ChunkIO(RuleBasedStateMachine):
             self.flags.add("overwrite")
         self.model[(si, cc)] = arr
         self.written_since_reopen.add((si, cc))
-        if any((cc[2 * a + 1] - cc[2 * a]) != sc["chunk_sizes"][0][a]
-               for a in range(3)):
+        if all(any((cc[2 * a + 1] - cc[2 * a]) != ch[a] for a in range(3))
+               for ch in sc["chunk_sizes"]):
             self.flags.add("border_chunk")
 
     @rule(s=st.integers(0, 2), seed=st.integers(0, 10 ** 6))
@@ -374,9 +390,19 @@ class ChunkIO(RuleBasedStateMachine):
         if self.sharded and (si in self.closed or self.open_scale not in (
                 None, si)):
             return
-        size, chunk = sc["size"], sc["chunk_sizes"][0]
+        size = sc["size"]
+        chunk = sc["chunk_sizes"][p % len(sc["chunk_sizes"])]
         cc = list(self.coords(sc, p))
         lo, hi = 2 * axis, 2 * axis + 1
+        if m == "mix_chunk_sizes":
+            if len(sc["chunk_sizes"]) < 2:
+                m = "shift1"
+            else:
+                # one axis taken from the grid of another listed chunk size
+                other = sc["chunk_sizes"][(p + 1) % len(sc["chunk_sizes"])]
+                k = amount % (-(-size[axis] // other[axis]))
+                cc[lo] = k * other[axis]
+                cc[hi] = min(cc[lo] + other[axis], size[axis])
         if m == "shift1":
             cc[lo] += amount
             cc[hi] += amount
@@ -405,7 +431,7 @@ class ChunkIO(RuleBasedStateMachine):
             cc[lo] = 2 ** 40 * chunk[axis]
             cc[hi] = cc[lo] + chunk[axis]
         cc = tuple(cc)
-        if on_grid(cc, size, chunk):
+        if self.valid_position(sc, cc):
             self._ctx.count("mutation_landed_on_grid")
             return
         if self.sharded and (si, cc) in self.model:
@@ -466,7 +492,7 @@ def replay(ctx, history):
     replay_history(ChunkIOLarge if large else ChunkIO, ctx, history)
 
 
-SUBS = [Sub("machine", run, replay, quick=400, thorough=6000,
+SUBS = [Sub("machine", run, replay, quick=400, thorough=72000,
             min_per_shard=10),
-        Sub("machine_large", run_large, replay, quick=28, thorough=700,
+        Sub("machine_large", run_large, replay, quick=28, thorough=8400,
             min_per_shard=3)]
